@@ -70,3 +70,64 @@ package rules
 //@   ensures ret1 == nil && len(ruleConfig.EncodedSlashesHandling) == 0 ==> unbox(ret0, *ruleImpl).slashesHandling == config2.EncodedSlashesOff
 //@   ensures ret1 == nil && len(ruleConfig.EncodedSlashesHandling) != 0 ==> unbox(ret0, *ruleImpl).slashesHandling == ruleConfig.EncodedSlashesHandling
 //@   ensures ret1 == nil ==> !unbox(ret0, *ruleImpl).isDefault
+
+// ======================================================================================
+// C01 / C04: the execute pipeline. Calls of the step interfaces are recorded in ghost logs
+// (auth, step, cond, condErr, ehl); contracts quantify over the segment appended by a call.
+// ======================================================================================
+
+//@ spec fallback(a subjectCreator) bool
+//@ spec continueOnError(h subjectHandler) bool
+
+// an authenticator that reports success has produced a subject
+//@ iface (subjectCreator).Execute
+//@   props C01 C04
+//@   logged auth
+//@   ensures ret1 == nil ==> ret0 != nil
+
+//@ iface (subjectCreator).IsFallbackOnErrorAllowed
+//@   pure
+//@   ensures ret0 == fallback(recv)
+
+//@ iface (subjectHandler).Execute
+//@   logged step
+
+//@ iface (subjectHandler).ContinueOnError
+//@   pure
+//@   ensures ret0 == continueOnError(recv)
+
+//@ iface (subjectHandler).ID
+//@   pure
+
+//@ iface (errorHandler).ID
+//@   pure
+
+// C04: authenticators are tried in configured order; the subject is the one of the first that
+// succeeds; a later one is consulted only if every earlier one failed with "no usable credentials"
+// (ErrArgument) or allows fallback on error; otherwise the failure is final.
+//@ func (compositeSubjectCreator).Execute
+//@   props C01 C04
+//@   requires len(ca) > 0
+//@   ensures ret1 == nil ==> ret0 != nil
+//@   ensures auth.n >= old(auth.n) && auth.n - old(auth.n) <= len(ca)
+//@   ensures forall k int :: old(auth.n) <= k && k < auth.n ==> auth.arg0[k] == ca[k - old(auth.n)]
+//@   ensures forall k int :: old(auth.n) <= k && k < auth.n - 1 ==> auth.ret1[k] != nil && (Is(auth.ret1[k], heimdall.ErrArgument) || fallback(auth.arg0[k]))
+//@   ensures ret1 == nil ==> auth.n > old(auth.n) && auth.ret1[auth.n-1] == nil && ret0 == auth.ret0[auth.n-1]
+//@   ensures ret1 != nil && auth.n > old(auth.n) ==> ret1 == auth.ret1[auth.n-1]
+//@   ensures ret1 != nil && auth.n > old(auth.n) && auth.n - old(auth.n) < len(ca) ==> !Is(ret1, heimdall.ErrArgument) && !fallback(auth.arg0[auth.n-1])
+//@   ensures len(ca) > 0 ==> auth.n > old(auth.n)
+//@   loop 0 invariant auth.n == old(auth.n) + idx + 1 && idx + 1 <= len(ca)
+//@   loop 0 invariant forall k int :: old(auth.n) <= k && k < auth.n ==> auth.arg0[k] == ca[k - old(auth.n)] && auth.ret1[k] != nil && (Is(auth.ret1[k], heimdall.ErrArgument) || fallback(auth.arg0[k]))
+//@   loop 0 invariant idx >= 0 ==> err == auth.ret1[auth.n-1]
+
+// C01: success of the composite means every step of this call ran (none skipped by the loop) and
+// returned nil or is marked continue-on-error; a failure is the error of the last step run.
+//@ func (compositeSubjectHandler).Execute
+//@   props C01
+//@   ensures step.n >= old(step.n) && step.n - old(step.n) <= len(cm)
+//@   ensures forall k int :: old(step.n) <= k && k < step.n ==> step.arg0[k] == cm[k - old(step.n)] && step.arg2[k] == sub
+//@   ensures ret0 == nil ==> step.n == old(step.n) + len(cm)
+//@   ensures ret0 == nil ==> forall k int :: old(step.n) <= k && k < step.n ==> step.ret0[k] == nil || continueOnError(step.arg0[k])
+//@   ensures ret0 != nil ==> step.n > old(step.n) && ret0 == step.ret0[step.n-1] && !continueOnError(step.arg0[step.n-1])
+//@   loop 0 invariant step.n == old(step.n) + idx + 1 && idx + 1 <= len(cm)
+//@   loop 0 invariant forall k int :: old(step.n) <= k && k < step.n ==> step.arg0[k] == cm[k - old(step.n)] && step.arg2[k] == sub && (step.ret0[k] == nil || continueOnError(step.arg0[k]))
